@@ -229,8 +229,10 @@ def t1_refinement_tables(ctx):
                 k = st.value.slice
                 if isinstance(k, ast.Call) and au.call_tail(k) == "keyify" and len(k.args) == 2 and all(isinstance(a, ast.Name) for a in k.args):
                     mids[st.targets[0].id] = (k.args[0].id, k.args[1].id)
-                elif isinstance(st.value.value, ast.Name) and st.value.value.id == "bary":
-                    centre = st.targets[0].id
+                elif isinstance(st.value.value, ast.Name) and isinstance(k, ast.Name) and any(
+                        isinstance(w, ast.Assign) and isinstance(w.targets[0], ast.Subscript) and au.src(w.targets[0].value) == st.value.value.id
+                        and isinstance(w.value, ast.Call) and au.call_tail(w.value) == "len" for w in au.stmts(fn.body)):
+                    centre = st.targets[0].id          # X[f] where X maps a face to the fresh index of its centre vertex
         tables = [(t, nd) for nd in au.walk(fn) for t in [_table_names(nd)] if t and len(t) == nfaces and all(len(f) >= 3 for f in t)]
         if old is None or len(mids) != 3 or not tables:
             ctx.fail("C13-T1", site, f"{q}: refinement table over (A,B,C) and the three edge midpoints not found", "")
@@ -362,17 +364,22 @@ def t1_refinement_tables(ctx):
         ok = bnd == want and all(c <= 1 for c in d.values())
     ctx.check(ok, "C13-T1", site, f"split_tet_from_face_center: the three triangles {faces} do not tile the split face with its orientation", "",
               note="3 triangles tile the face")
-    # the tets: each of the 3 vertices of the face is replaced by the centre, the opposite vertex (index iF) is skipped
+    # the tets: each of the 3 vertices of the face is replaced by the centre, the opposite vertex (local index of the face in the cell) is skipped
     ok = False
+    fresh = [t.id for st in au.stmts(fn.body) if isinstance(st, ast.Assign) and isinstance(st.value, ast.Call) and au.call_tail(st.value) == "len"
+             and st.value.args and au.src(st.value.args[0]).endswith(".vertices") for t in st.targets if isinstance(t, ast.Name)]
+    opp = [t.id for st in au.stmts(fn.body) if isinstance(st, ast.Assign) and isinstance(st.value, ast.Call)
+           and au.call_tail(st.value) == "in_cell_face_index" for t in st.targets if isinstance(t, ast.Name)]
     for st in au.stmts(fn.body):
-        if isinstance(st, ast.For) and isinstance(st.iter, ast.Call) and au.call_tail(st.iter) == "range" and au.const(st.iter.args[0]) == 4:
+        if isinstance(st, ast.For) and isinstance(st.iter, ast.Call) and au.call_tail(st.iter) == "range" and au.const(st.iter.args[0]) == 4 \
+                and isinstance(st.target, ast.Name):
             i = st.target.id
-            skip = [s for s in st.body if isinstance(s, ast.If) and isinstance(s.test, ast.Compare) and isinstance(s.test.ops[0], ast.Eq)
-                    and au.src(s.test.left) == i and s.body and isinstance(s.body[0], ast.Continue)]
-            rep = [s for s in st.body if isinstance(s, ast.Assign) and isinstance(s.targets[0], ast.Subscript)
-                   and au.src(s.targets[0].slice) == i and au.src(s.value) == "icenter"]
-            cp = [s for s in st.body if isinstance(s, ast.Assign) and isinstance(s.value, (ast.ListComp, ast.Call))]
-            ok = len(skip) == 1 and len(rep) == 1 and bool(cp) and au.src(skip[0].test.comparators[0]) == "iF"
+            rep = [s for s in au.stmts(st.body) if isinstance(s, ast.Assign) and isinstance(s.targets[0], ast.Subscript)
+                   and au.src(s.targets[0].slice) == i and au.src(s.value) in fresh]
+            cp = [s for s in au.stmts(st.body) if isinstance(s, ast.Assign) and isinstance(s.value, (ast.ListComp, ast.Call))]
+            conds = [au.canon_test(t, p) for s in rep for t, p in au.guards(s, stop=st)]
+            skip_ok = len(opp) == 1 and len(conds) == 1 and conds[0] in (au.canon_test(ast.parse(f"{i} != {opp[0]}", mode="eval").body),)
+            ok = len(rep) == 1 and bool(cp) and skip_ok
     ctx.check(ok, "C13-T1", site, "split_tet_from_face_center: new cells are not `copy of the cell with vertex i replaced by the centre` for every i but the opposite vertex", "")
     ctx.require_count("C13-T1 refinement tables", n, 6)
 
@@ -517,7 +524,7 @@ def h1_input_not_half_updated(ctx):
                       and au.src(st.value) == f"{alias_name}.mesh" for st in au.stmts(fn.body))
         ok = au.src(last.value) == f"{alias_name}.mesh" or rebinds
         ctx.check(ok, "C13-H1", ctx.site(SUB, fn, last),
-                  f"split_double_boundary_edges_triangles returns its input `{p}` instead of the re-instantiated `{alias_name}.mesh`",
+                  "split_double_boundary_edges_triangles returns its input mesh instead of the mesh re-instantiated by the editing block",
                   "after the editing block the refined, valid mesh is the editor's; the object passed in has new faces but stale "
                   "corners and connectivity (half-updated)")
     else:
@@ -624,39 +631,31 @@ def d1_dispatch(ctx):
     site = ctx.site(SUB, fn)
     b = sym.Bindings(fn)
     # classify what happens for n = 3..7 by evaluating the if/elif chain on len(F)
-    chain = [st for st in fn.body if isinstance(st, ast.If)]
+    from ..rules.c1120_util import paths as _paths
     ok = False
-    if len(chain) == 1:
+    if True:
         def symf(node):
-            r = b.resolve(node, at=chain[0])
-            if isinstance(r, ast.Call) and au.call_tail(r) == "len" and au.src(b.resolve(r.args[0], at=chain[0])).startswith("self.mesh.faces["):
+            r = b.resolve(node, at=fn.body[-1])
+            if isinstance(r, ast.Call) and au.call_tail(r) == "len" and au.src(b.resolve(r.args[0], at=fn.body[-1])).startswith("self.mesh.faces["):
                 return "n"
             raise order.Unsupported(au.src(node))
 
-        def action(body):
-            if any(isinstance(x, ast.Return) for x in body):
-                return "none"
+        def action(path):
+            body = path.stmts
             if any(au.call_tail(c) == "split_face_as_fan" for s_ in body for c in au.calls(s_)):
                 return "fan"
             if any(au.call_tail(c) == "append" and au.src(c.func.value) == "self.mesh.faces" for s_ in body for c in au.calls(s_)):
                 return "diag"
+            if path.end == "return" or not any(isinstance(s_, (ast.Assign, ast.AugAssign)) and "faces" in au.src(s_) for s_ in body):
+                return "none"
             return "?"
         try:
             res = {}
+            ps = _paths(fn.body)
             for n in (3, 4, 5, 6, 7):
-                node = chain[0]
-                act = "fall"
-                while True:
-                    pred = order.Pred(symf)
-                    if pred.eval(node.test, {"n": n}):
-                        act = action(node.body)
-                        break
-                    if len(node.orelse) == 1 and isinstance(node.orelse[0], ast.If):
-                        node = node.orelse[0]
-                        continue
-                    act = action(node.orelse) if node.orelse else "fall"
-                    break
-                res[n] = act
+                pred = order.Pred(symf)
+                taken = [p_ for p_ in ps if all(bool(pred.eval(t, {"n": n})) == pol for t, pol, kind in p_.guards if kind == "if")]
+                res[n] = action(taken[0]) if len(taken) == 1 else "?"
             ok = res == {3: "none", 4: "diag", 5: "fan", 6: "fan", 7: "fan"}
         except order.Unsupported:
             ok = False
